@@ -203,14 +203,19 @@ func (p *vRPair) take(fromB bool) [][]byte {
 	return out
 }
 
-func vRKeyring(ids []string) *Keyring {
+// dup: the key list as an operator may have written it - every secondary key listed twice (NewKeyring
+// installs each key once)
+func vRKeyring(ids []string, dup bool) *Keyring {
 	if len(ids) == 0 {
 		kr, _ := NewKeyring(nil, nil)
 		return kr
 	}
 	var all [][]byte
-	for _, id := range ids {
+	for i, id := range ids {
 		all = append(all, vWKeys[id])
+		if dup && i > 0 {
+			all = append(all, vWKeys[id])
+		}
 	}
 	kr, err := NewKeyring(all, all[0])
 	if err != nil {
@@ -221,7 +226,7 @@ func vRKeyring(ids []string) *Keyring {
 
 func (p *vRPair) run(t *testing.T, id int, c vRCase, emit func(vRLine)) {
 	B, A := p.B, p.A
-	B.m.config.Keyring = vRKeyring(c.Start)
+	B.m.config.Keyring = vRKeyring(c.Start, id%2 == 1)
 	// (a node is usually created with Config.SecretKey = its first primary key; rotation happens on the keyring)
 	B.m.config.SecretKey = nil
 	if len(c.Start) > 0 {
@@ -256,7 +261,7 @@ func (p *vRPair) run(t *testing.T, id int, c vRCase, emit func(vRLine)) {
 			if op.Key == "plain" {
 				A.m.config.Keyring = nil
 			} else {
-				A.m.config.Keyring = vRKeyring([]string{op.Key})
+				A.m.config.Keyring = vRKeyring([]string{op.Key}, false)
 			}
 			payload := make([]byte, 20)
 			rand.Read(payload)
